@@ -266,4 +266,6 @@ def check():
     ))
     rep.assumptions = ["a run is hung when the coordinator polls with nothing outstanding, or does not return within 30 s",
                        "the oracle is totality only; TLA+ contributes the necessity argument (PanicHangs) and the models' totality"]
+    from cli_engine import cli_layer
+    cli_layer(rep, "C18", workdir("C18-cli"))
     rep.finish()
